@@ -14,7 +14,7 @@ import (
 )
 
 type entrySpec struct {
-	Name     string       `json:"name"`               // '/'-separated, relative; directories end with '/'
+	Name     string       `json:"name"` // '/'-separated, relative; directories end with '/'
 	Dir      bool         `json:"dir,omitempty"`
 	Len      int          `json:"len,omitempty"`      // length of the generated content
 	Random   bool         `json:"random,omitempty"`   // incompressible content instead of a repeated byte
